@@ -97,7 +97,9 @@ def same_value(a, b):
         return close(a, b)
     if isinstance(a, bool) or isinstance(b, bool):
         return isinstance(a, bool) and isinstance(b, bool) and a == b
-    return type(a) is type(b) and a == b or (isinstance(a, (list, tuple, frozenset)) and a == b)
+    if isinstance(a, str) or isinstance(b, str):
+        return isinstance(a, str) and isinstance(b, str) and a == b
+    return type(a) is type(b) and a == b
 
 
 def _exact(v):
@@ -208,6 +210,8 @@ def _prim_eq(a, b):
         return num_cmp(a, b) == 0
     if isinstance(a, bool) or isinstance(b, bool):
         return isinstance(a, bool) and isinstance(b, bool) and a == b
+    if isinstance(a, str) or isinstance(b, str):
+        return isinstance(a, str) and isinstance(b, str) and a == b
     return type(a) is type(b) and a == b
 
 
@@ -365,6 +369,38 @@ def _aggregate(name, vals):
     raise ValueError(name)
 
 
+def _connective(op, ma, mb, env):
+    """Order-independent three-valued connectives (parallel/Kleene): a side that decides the
+    result makes it defined even when the other side is undefined, whichever side it is.
+    The quantifiers follow the same rule. Arithmetic and comparisons stay strict."""
+
+    def side(m):
+        try:
+            v = ev(m, env)
+        except (Undef, Ambig, IllConditioned) as e:
+            return e
+        if not isinstance(v, bool):
+            raise Ambig('connective on non-booleans')
+        return v
+
+    a, b = side(ma), side(mb)
+    if op == 'iff':
+        for x in (a, b):
+            if isinstance(x, Exception):
+                raise x
+        return a == b
+    if op == 'implies':
+        a = (not a) if isinstance(a, bool) else a
+        op = 'or'
+    decisive = op == 'or'  # or: one True decides; and: one False decides
+    if a is decisive or b is decisive:
+        return decisive
+    for x in (a, b):
+        if isinstance(x, Exception):
+            raise x
+    return not decisive
+
+
 def ev(m, env):
     k = m[0]
     if k == 'lit':
@@ -416,18 +452,10 @@ def ev(m, env):
         return norm(-v)
     if k == 'bin':
         op = m[1]
+        if op in ('and', 'or', 'implies', 'iff'):
+            return _connective(op, m[2], m[3], env)
         a = ev(m[2], env)
         b = ev(m[3], env)
-        if op in ('and', 'or', 'implies', 'iff'):
-            if not (isinstance(a, bool) and isinstance(b, bool)):
-                raise Ambig('connective on non-booleans')
-            if op == 'and':
-                return a and b
-            if op == 'or':
-                return a or b
-            if op == 'implies':
-                return (not a) or b
-            return a == b
         if op == '=':
             return val_eq(a, b)
         if op == '!=':
@@ -442,13 +470,27 @@ def ev(m, env):
         return _arith(op, a, b)
     if k == 'q':
         dom = elements(ev(m[3], env))
-        results = [ev(m[4], env.bind(m[2], x)) for x in dom]
-        for r in results:
+        decisive = m[1] == 'exists'  # exists: one True decides; forall: one False decides
+        pending = None
+        for x in dom:
+            try:
+                r = ev(m[4], env.bind(m[2], x))
+            except (Undef, Ambig, IllConditioned) as e:
+                pending = pending or e
+                continue
             if not isinstance(r, bool):
                 raise Ambig('quantifier body is not boolean')
-        return all(results) if m[1] == 'forall' else any(results)
+            if r is decisive:
+                return decisive
+        if pending is not None:
+            raise pending
+        return not decisive
     if k == 'call':
-        return call(m[1], [ev(m[2], env)])
+        arg = ev(m[2], env)
+        if m[1] == 'str' and is_num(arg) and m[2][0] not in ('lit', 'field', 'index', 'var'):
+            # how a computed number prints depends on its int/float representation
+            raise Ambig('str() of a computed number')
+        return call(m[1], [arg])
     if k == 'calln':
         return call(m[1], [ev(a, env) for a in m[2]])
     if k == 'const':
